@@ -203,9 +203,6 @@ def c07(F: Facts):
         for (b, e, hi), ents in F.enters.items():
             if e == ev and len(ents) > 1:
                 v.append(('C07.b', f'event {ev}: handler h{hi} on {b} ran {len(ents)} times'))
-        for (b, e), idxs in F.enq.items():
-            if e == ev and len(idxs) > 1 and len([1 for x in entry if f'B{x}' == b]) < len(idxs):
-                v.append(('C07.b', f'event {ev} was enqueued {len(idxs)} times on {b} by forwarding'))
         fin = F.final.get(ev)
         if fin is not None and not F.hang:
             order = []
